@@ -15,9 +15,12 @@ import (
 
 	apifu "github.com/ccbrown/api-fu"
 	"github.com/ccbrown/api-fu/graphql"
+	"github.com/ccbrown/api-fu/graphql/executor"
+	"github.com/ccbrown/api-fu/graphql/parser"
 	"github.com/ccbrown/api-fu/graphql/scanner"
 	"github.com/ccbrown/api-fu/graphql/schema"
 	"github.com/ccbrown/api-fu/graphql/token"
+	"github.com/ccbrown/api-fu/graphql/validator"
 
 	"verifharness/internal/hx"
 	"verifharness/internal/rng"
@@ -341,6 +344,29 @@ func mutate(r *rng.R, src string) string {
 	return strings.Join(toks, sep)
 }
 
+var vocabulary = []string{"i", "s", "f", "b", "id", "e", "nn", "li", "lnn", "o", "onn", "lo", "oa", "arg", "req", "def", "inp", "iface", "uni", "err", "errnn",
+	"wInt", "wFloat", "wList", "wObj", "wIface", "wUni", "wNN", "s2", "m", "mo", "sub", "subo", "x", "y", "r", "in", "inr", "l", "bnn", "dt", "long", "a", "c",
+	"Query", "Mutation", "Subscription", "Obj", "Obj2", "Iface", "Uni", "Color", "In", "InReq", "Int", "Float", "String", "Boolean", "ID", "DateTime", "LongInt",
+	"RED", "GREEN", "include", "skip", "custom", "if", "n", "__typename", "__schema", "__type", "name", "fields", "types", "F", "A", "B", "Q", "on", "null", "true", "false",
+	"1", "0", "-1", "1.5", `"x"`, "$x", "$b", "$s", "$v", "$in", "$l", "[1]", "{a:1}", "[]", "{}"}
+
+// semantic mutation: names and values are replaced by other words of the schema's vocabulary, so
+// that most results still parse and reach the validator (and many the executor)
+func mutateNames(r *rng.R, src string) string {
+	toks := tokens(src)
+	n := r.Range(1, 3)
+	for k := 0; k < n && len(toks) > 0; k++ {
+		i := r.Intn(len(toks))
+		c := toks[i][0]
+		if c >= 'a' && c <= 'z' || c >= 'A' && c <= 'Z' || c == '_' || c >= '0' && c <= '9' || c == '"' || c == '-' {
+			toks[i] = rng.Pick(r, vocabulary)
+		} else if toks[i] == "$" && i+1 < len(toks) {
+			toks[i+1] = rng.Pick(r, []string{"x", "b", "s", "v", "in", "l", "zz"})
+		}
+	}
+	return strings.Join(toks, " ")
+}
+
 func rawBytes(r *rng.R) string {
 	n := r.Range(0, 24)
 	b := make([]byte, n)
@@ -400,6 +426,7 @@ func randomVars(r *rng.R) string {
 type outcome struct {
 	class  string // ok | errors | panic | timeout | marshal-error | nodata-noerrors | bad-status
 	detail string
+	resp   *graphql.Response // the response judged, if any
 }
 
 func site() string {
@@ -429,7 +456,7 @@ func guarded(f func() outcome) outcome {
 	go func() {
 		defer func() {
 			if e := recover(); e != nil {
-				ch <- outcome{"panic", site() + ": " + fmt.Sprint(e)}
+				ch <- outcome{class: "panic", detail: site() + ": " + fmt.Sprint(e)}
 			}
 		}()
 		ch <- f()
@@ -438,30 +465,31 @@ func guarded(f func() outcome) outcome {
 	case o := <-ch:
 		return o
 	case <-time.After(20 * time.Second):
-		return outcome{"timeout", ""}
+		return outcome{class: "timeout"}
 	}
 }
 
-func judge(resp *graphql.Response) outcome {
+func judge(resp *graphql.Response) (o outcome) {
+	defer func() { o.resp = resp }()
 	b, err := json.Marshal(resp)
 	if err != nil {
-		return outcome{"marshal-error", err.Error()}
+		return outcome{class: "marshal-error", detail: err.Error()}
 	}
 	var back struct {
 		Data   json.RawMessage
 		Errors []json.RawMessage
 	}
 	if err := json.Unmarshal(b, &back); err != nil {
-		return outcome{"marshal-error", "does not parse back: " + err.Error()}
+		return outcome{class: "marshal-error", detail: "does not parse back: " + err.Error()}
 	}
 	noData := back.Data == nil || bytes.Equal(bytes.TrimSpace(back.Data), []byte("null"))
 	if noData && len(back.Errors) == 0 {
-		return outcome{"nodata-noerrors", string(b)}
+		return outcome{class: "nodata-noerrors", detail: string(b)}
 	}
 	if len(back.Errors) > 0 {
-		return outcome{"errors", ""}
+		return outcome{class: "errors"}
 	}
-	return outcome{"ok", ""}
+	return outcome{class: "ok"}
 }
 
 func parseVars(vars string) (map[string]interface{}, bool) {
@@ -499,8 +527,10 @@ func runCase(api string, q, vars, op string, world, weirdErr int) outcome {
 		return guarded(func() outcome {
 			v, errs := graphql.Subscribe(&graphql.Request{Context: context.Background(), Query: q, Schema: s, OperationName: op, VariableValues: vm})
 			if len(errs) == 0 {
-				_ = v
-				return outcome{"ok", ""}
+				var x interface{} = v
+				_ = x
+				var marker interface{} = true
+				return outcome{class: "ok", resp: &graphql.Response{Data: &marker}}
 			}
 			return judge(&graphql.Response{Errors: errs})
 		})
@@ -517,7 +547,7 @@ func runCase(api string, q, vars, op string, world, weirdErr int) outcome {
 				Resolve: func(ctx graphql.FieldContext) (interface{}, error) { return 1, nil }})
 			a, err := apifu.NewAPI(cfg)
 			if err != nil {
-				return outcome{"errors", "schema"}
+				return outcome{class: "errors", detail: "schema"}
 			}
 			body, _ := json.Marshal(map[string]interface{}{"query": q, "variables": vm, "operationName": op})
 			hr := httptest.NewRequest("POST", "/graphql", bytes.NewReader(body))
@@ -525,24 +555,106 @@ func runCase(api string, q, vars, op string, world, weirdErr int) outcome {
 			rec := httptest.NewRecorder()
 			a.ServeGraphQL(rec, hr)
 			if rec.Code != 200 {
-				return outcome{"bad-status", fmt.Sprint(rec.Code, " ", strings.TrimSpace(rec.Body.String()))}
+				return outcome{class: "bad-status", detail: fmt.Sprint(rec.Code, " ", strings.TrimSpace(rec.Body.String()))}
 			}
 			var resp graphql.Response
 			if err := json.Unmarshal(rec.Body.Bytes(), &resp); err != nil {
-				return outcome{"marshal-error", err.Error()}
+				return outcome{class: "marshal-error", detail: err.Error()}
 			}
 			return judge(&resp)
 		})
 	}
-	return outcome{"ok", ""}
+	return outcome{class: "ok"}
+}
+
+// stage verdicts, observed by calling the stages separately (fresh schema instance, same world)
+func stageNode(name string, f func() sexp.Node) (n sexp.Node, crashed bool) {
+	ch := make(chan sexp.Node, 1)
+	go func() {
+		defer func() {
+			if e := recover(); e != nil {
+				ch <- sexp.T(name, sexp.Sym("crashed"))
+			}
+		}()
+		ch <- f()
+	}()
+	select {
+	case n = <-ch:
+	case <-time.After(20 * time.Second):
+		n = sexp.T(name, sexp.Sym("crashed"))
+	}
+	return n, len(n.List) == 2 && n.List[1].Sym == "crashed"
+}
+
+func stages(api, q, vars, op string, world, weirdErr int) sexp.Node {
+	s := buildSchema(world, weirdErr)
+	vm, _ := parseVars(vars)
+	out := []sexp.Node{}
+	var doc interface{}
+	pn, crashed := stageNode("parse", func() sexp.Node {
+		d, errs := parser.ParseDocument([]byte(q))
+		doc = d
+		return sexp.T("parse", sexp.Int(len(errs)))
+	})
+	out = append(out, pn)
+	if crashed || pn.List[1].Int.Sign() != 0 {
+		return sexp.T("stages", out...)
+	}
+	d, _ := parser.ParseDocument([]byte(q))
+	_ = doc
+	vn, crashed := stageNode("validate", func() sexp.Node {
+		var rules []validator.Rule
+		if api == "validate" {
+			var actual int
+			rules = append(rules, validator.ValidateCost(op, vm, 1000, &actual, graphql.FieldCost{Resolver: 1}))
+		}
+		return sexp.T("validate", sexp.Int(len(validator.ValidateDocument(d, s, graphql.FeatureSet{}, rules...))))
+	})
+	out = append(out, vn)
+	if crashed || vn.List[1].Int.Sign() != 0 || api == "validate" {
+		return sexp.T("stages", out...)
+	}
+	req := &executor.Request{Document: d, Schema: s, OperationName: op, VariableValues: vm}
+	if api == "subscribe" {
+		sn, _ := stageNode("subscribe", func() sexp.Node {
+			_, err := executor.Subscribe(context.Background(), req)
+			return sexp.T("subscribe", sexp.Bool(err != nil))
+		})
+		out = append(out, sn)
+	} else {
+		en, _ := stageNode("exec", func() sexp.Node {
+			data, errs := executor.ExecuteRequest(context.Background(), req)
+			return sexp.T("exec", sexp.Bool(data == nil), sexp.Int(len(errs)))
+		})
+		out = append(out, en)
+	}
+	return sexp.T("stages", out...)
+}
+
+func respNode(o outcome) sexp.Node {
+	if o.resp == nil {
+		return sexp.T("resp", sexp.Sym("none"))
+	}
+	hasData := o.resp.Data != nil
+	null := !hasData || *o.resp.Data == nil
+	if hasData {
+		if m, ok := (*o.resp.Data).(*executor.OrderedMap); ok && m == nil {
+			null = true
+		}
+	}
+	return sexp.T("resp", sexp.Bool(hasData), sexp.Bool(null), sexp.Int(len(o.resp.Errors)))
 }
 
 func emit(stream, api, q, vars, op string, world, weirdErr int) sexp.Node {
 	o := runCase(api, q, vars, op, world, weirdErr)
+	st := sexp.T("stages")
+	if api != "serve" {
+		st = stages(api, q, vars, op, world, weirdErr)
+	}
 	return sexp.T("case", sexp.T("stream", sexp.Sym(stream)), sexp.T("api", sexp.Sym(api)),
 		sexp.T("query", sexp.Str(q)), sexp.T("vars", sexp.Str(vars)), sexp.T("op", sexp.Str(op)),
-		sexp.T("world", sexp.Int(world), sexp.Int(weirdErr)),
-		sexp.T("outcome", sexp.Sym(o.class), sexp.Str(o.detail)))
+		sexp.T("world", sexp.Int(world), sexp.Int(weirdErr)), st,
+		sexp.T("outcome", sexp.Sym(o.class), sexp.Str(o.detail)), respNode(o))
 }
 
 func main() {
@@ -595,7 +707,7 @@ func main() {
 			h.Case(func(*rng.R) sexp.Node { return emit("opname", "subscribe", `query A{i} subscription B{sub}`, `{}`, op, 0, 0) })
 		}
 		// 6. random: token-level mutations, raw bytes, random variables
-		n := 6000
+		n := 9000
 		if h.Thorough() {
 			n = 200000
 		}
@@ -608,11 +720,13 @@ func main() {
 			h.Case(func(r *rng.R) sexp.Node {
 				api := apis[r.Intn(len(apis))]
 				var q, stream string
-				switch i % 4 {
+				switch i % 6 {
 				case 0:
 					q, stream = rawBytes(r), "raw"
-				case 1, 2:
+				case 1:
 					q, stream = mutate(r, rng.Pick(r, all)), "mutated"
+				case 2, 3, 4:
+					q, stream = mutateNames(r, rng.Pick(r, all)), "renamed"
 				default:
 					q, stream = rng.Pick(r, all), "vars"
 				}
